@@ -823,6 +823,10 @@ class Enforcer:
                 # Undefined rule
                 return True
 
+        # A NotCheck wraps a single rule.
+        if isinstance(check, NotCheck):
+            return self._undefined_check(check.rule)
+
         # An AndCheck or OrCheck is composed of multiple rules so check
         # each of those.
         rules = getattr(check, 'rules', None)
@@ -855,6 +859,10 @@ class Enforcer:
                 # There can only be a cycle if the referenced rule is defined.
                 if self._cycle_check(self.rules[check.match], seen):
                     return True
+
+        # A NotCheck wraps a single rule.
+        if isinstance(check, NotCheck):
+            return self._cycle_check(check.rule, seen)
 
         # An AndCheck or OrCheck is composed of multiple rules so check
         # each of those.
